@@ -295,8 +295,23 @@ class Importance(CellModifierInput):
         value = float(value)
         if value < 0.0:
             raise ValueError("Importance must be ≥ 0.0")
+        self._set_all(value)
+
+    def _set_all(self, value):
+        """
+        Sets the importance of every particle of the problem's mode.
+
+        The value must have been validated: nothing in here may fail half way.
+        A particle of the mode that this cell has no importance for yet gets one,
+        as in ``importance[particle] = value``.
+
+        :param value: the importance, a float ≥ 0.
+        :type value: float
+        """
         if self._problem:
             for particle in self._problem.mode:
+                if particle not in self._particle_importances:
+                    self._generate_default_cell_tree(particle)
                 self._particle_importances[particle]["data"][0].value = value
 
     def _clear_data(self):
